@@ -595,6 +595,8 @@ class ReadEvents(InoSpec):
     def post(self, ex, result):
         s = self.st(ex)
         ex.oblige("post[lock released]", LOCK not in ex.held)
+        if self.released_by_me or getattr(self, "returned_closed", False):
+            ex.oblige("post[after close() the reader gets an empty batch (its loop can end)]", isinstance(result, (list, VOpaque)) and (result == [] or getattr(result, "kind", "") == "emptylist"))
         if "fds" in self.want:
             ex.oblige("post[no read left in flight]", z3.Not(s["reading"]))
             ex.oblige("post[descriptors released by the reader only after close()]", z3.Implies(z3.BoolVal(self.released_by_me), s["closed"]))
